@@ -595,6 +595,54 @@ def check_termination(ctx, F, scope, loops_table, rec_table, rule="R-TERM"):
                 res = resolves_references(F, comp)
                 if res:
                     ok, how = False, "cycle tabled as structural now resolves references through %s" % res
+            # a bound that rests on what the recursive call is given (e.g. "the result of get_object, which is never a
+            # Reference"): every recursive call site must pass a value that comes from that callee
+            if ok and r.get("rec_arg_from"):
+                spec = r["rec_arg_from"]
+                nrec = 0
+                for pth in comp:
+                    cb = F.bodies[pth]
+                    env = guard.Env(cb)
+                    for c in cb.calls:
+                        if c.local and c.name in comp:
+                            nrec += 1
+                            p_ = op_place(c.args[spec["arg"]])
+                            src = None
+                            if p_ is not None:
+                                rp = cb.root_place(p_, through_names=True)
+                                pr = [e for e in rp["p"] if e != "*"]
+                                l_ = rp["l"]
+                                okp = not pr or (len(pr) == 2 and isinstance(pr[0], dict) and pr[0].get("down") in ("Continue", "Some", "Ok") and isinstance(pr[1], dict) and pr[1].get("f") == 0)
+                                for _ in range(6):
+                                    d_ = cb.single_def(l_) if okp else None
+                                    if d_ is None:
+                                        break
+                                    if d_[2] == "call":
+                                        tgt = d_[3]["f"].get("res") or d_[3]["f"].get("fn") or ""
+                                        if d_[3]["f"].get("loc") and tgt in F.bodies:
+                                            src = F.bodies[tgt]
+                                            break
+                                        if tgt.rsplit("::", 1)[-1] in ("branch", "unwrap", "expect") and d_[3]["args"]:
+                                            q = op_place(d_[3]["args"][0])
+                                            if q is None or q["p"]:
+                                                break
+                                            l_ = q["l"]
+                                            continue
+                                        break
+                                    if d_[2] == "rv" and d_[3]["k"] == "use":
+                                        q = op_place(d_[3]["o"])
+                                        if q is None or q["p"]:
+                                            break
+                                        l_ = q["l"]
+                                        continue
+                                    break
+                            nm = F.canon_of(src) if src is not None and not isinstance(src, tuple) else None
+                            if nm != spec["callee"]:
+                                ok, how = False, "the recursive call at line %d passes a value that does not come from %s (comes from %s)" % (c.ln, spec["callee"], nm or "elsewhere")
+                if ok and nrec == 0:
+                    ok, how = False, "no recursive call site found"
+                if ok:
+                    how += " [%d recursive call site(s): argument comes from %s]" % (nrec, spec["callee"])
             # an input-bounded argument rests on where the outside callers start: re-verified on every run
             if ok and r.get("entry_args"):
                 spec = r["entry_args"]
